@@ -7,30 +7,44 @@ MANIFEST = dict(
    note="Trusted: Lean kernel; axioms propext/Classical.choice/Quot.sound at most; Go harness + comparer. strings.TrimSpace/ToLower/ToUpper are modelled on ASCII only (the generator stays in ASCII). Built-in check evaluations are not observable (only user callbacks are logged). The full value-threading/abort statements over the whole callback log are false for pointer inputs with overwrites (extra pass of validatePointer): proved witness c10_first_pass_witness, known finding; the _partial theorems state the exact excluded region.",
    design="DESIGN.md §5 C10")
 
-MODULES = ["Gozod.Proofs.C10"]
+MODULES = ["Gozod.Proofs.C10", "Gozod.Proofs.C10C"]
 THEOREMS = ["Gozod.C10." + t for t in [
     "runChecks_post", "c10_value_threading", "c10_issue_order", "c10_first_failing", "c10_abort_stops",
     "c10_ok_iff_no_fail", "c10_ok_value", "firstPass_early", "c10_runOn_issues", "c10_runOn_ok_iff",
     "c10_value_threading_partial", "c10_abort_stops_partial", "c10_transform_once", "c10_pipe",
-    "c10_pipe_ok_iff", "c10_base_ok_iff", "c10_base_ok_value", "c10_first_pass_witness"]]
+    "c10_pipe_ok_iff", "c10_base_ok_iff", "c10_base_ok_value", "c10_first_pass_witness",
+    "firstPassC_cooked", "firstPassC_vacFree", "c10_container_partial", "c10_container_ok_iff",
+    "c10_container_first_pass_witness", "parsePipelineK_erase"]]
 
 def key(op, impl, M, S):
     how = C.op_comment(op)
-    ptr = "ptr" if ("*" in C.op_body(op).split(" | ")[-1] or "StringPtr" in how) else "val"
+    body = C.op_body(op)
+    if body.startswith("c10shape"):
+        return "shape:" + body.split(" ")[1]
     if impl.startswith("panic"): return "panic"
     reason = S[len("spec-rejects:"):] if (S or "").startswith("spec-rejects:") else "observation-differs"
+    if "Refine(CustomParams)" in how:
+        # the directed family: CustomParams handed to ZodIntegerTyped.Refine
+        return "int-refine-customparams:" + reason
+    if "Slice[" in how or "Object{" in how:
+        where = "container"
+    else:
+        where = "ptr" if ("*" in body.split(" | ")[-1] or "StringPtr" in how) else "val"
     modelled = "first-pass" if impl == M else "unmodelled"
-    return "%s:%s:%s" % (reason, ptr, modelled)
+    return "%s:%s:%s" % (reason, where, modelled)
 
 def describe(op):
     return ("harness/cmd/c10: B <tag> <ptr> <n> checks… = gozod.String()/StringPtr() with the listed checks (message m<tag>.<pos>), "
-            "T = .Transform, P = .Pipe; input hex (trailing * = passed as *string)")
+            "T = .Transform, P = .Pipe; input hex (trailing * = passed as *string). c10u lines: B <tag> <kind> … with kind s/i/l/o = String / Int / Slice[int](Int()) / "
+            "Object{a: Int, b: Int}; checks igte/ilte/igt/ilt/imul n = Gte|Min/Lte|Max/Gt/Lt/MultipleOf, lmin/lmax/llen n = Min/Max/Length, ref k abort when = Refine/RefineAny "
+            "with CustomParams, chk k abort when = Check(fn pushing issueCount k issues), ow k = Overwrite(custom k); values i<int> l<ints> o<a>:<b>; the schema names are in the op comment. "
+            "c10shape <func>: go/ast statement skeleton of internal/engine/{checker,parser}.go vs lean/Gozod/Model/ChecksShape.lean")
 
 def run(res):
     ok, detail = C.prove(res, MODULES, THEOREMS)
     if not ok:
         C.tie_broken(res, "proof Gozod.Proofs.C10", detail)
-    data, err = C.correspond(res, "C10", feed_impl=True)
+    data, err = C.correspond(res, "C10", extra_args=["-repo", C.REPO], feed_impl=True)
     if data is None:
         C.tie_broken(res, "correspondence C10/executeChecks", err)
         return res.finish()
